@@ -44,7 +44,13 @@ RELEASE_NAMES = ['Release', 'Free', 'Unlock', 'UnReserve', 'Drop']
 PORT_NAMES = ['api', 'hal', 'cord', 'p', 'q1', 'Led', 'timer', 'ctrl']
 
 
-def gen_model(rng, want_mc=None, nports=None, clash=False):
+# claim / release names in rotation: plain ones, one a suffix of the other, and a claim whose name ends with the name of
+# another in-event that is declared before it
+MC_ROTATION = [('Claim', 'Release', None), ('Reserve', 'UnReserve', None), ('TryLock', 'Unlock', 'Lock'), ('Acquire', 'Free', None),
+               ('Lock', 'Unlock', None), ('Get', 'Forget', None)]
+
+
+def gen_model(rng, want_mc=None, nports=None, clash=False, mc_names=None):
     """A random well-formed model with a valid configuration; returns (decls, cfg, index of the granting value).
     clash: at least two interfaces in different namespaces spell a parameter type identically ('U') while it denotes
     different externs, and all ports are MTS so that both are looked up in one build."""
@@ -77,6 +83,11 @@ def gen_model(rng, want_mc=None, nports=None, clash=False):
     claim = release = ''
     if mc_on:
         claim, release = rng.choice(CLAIM_NAMES), rng.choice(RELEASE_NAMES)
+        if mc_names is not None:
+            claim, release, extra = mc_names
+            itfs[0]['events'] = [e for e in itfs[0]['events'] if e['name'] not in (claim, release, extra)]
+            if extra:
+                itfs[0]['events'].insert(0, IN_SHAPES[1](extra))
         cform = rng.choice([[], [F('a', 'T')], [F('a', 'T'), F('b', 'U', 'out')], [F('a', 'U', 'inout')],
                             [F('a', 'T', 'inout'), F('b', 'T', 'out')]])
         rform = rng.choice([[], [F('a', 'T')], [F('a', 'U', 'inout')]])
@@ -389,7 +400,8 @@ class Engine:
         tries = 0
         while len(progs) < count and tries < count * 4:
             tries += 1
-            decls, cfg, grant = gen_model(rng, want_mc, clash=(tries % 4 == 0))
+            decls, cfg, grant = gen_model(rng, want_mc, clash=(tries % 4 == 0),
+                                          mc_names=MC_ROTATION[tries % len(MC_ROTATION)] if tries % 2 else None)
             prog = cxx.Program(decls, cfg)
             prog.grant = grant
             try:
